@@ -6,7 +6,7 @@ a partial_fit, often arm changes / warm start / refit - is run on both; the outp
 bit-for-bit.  Behaviour is compared, not raw state (LSH look-ups insert empty buckets, Thompson caches its
 last draw: invisible by design).
 
-As built: Workload extras: far-away rows (empty neighbourhoods) and 40 / 130-row batches among the intervening queries and in the continuation. Half of the threaded query phases run with the GIL handed over every microsecond; queries arrive in the history's habitual container; refits inside the continuation may change the width. Arm changes under no_nhood_prob_of_arm (K6); the public policy objects are compared at the end of every continuation.
+As built: Workload extras: far-away rows (empty neighbourhoods) and 40 / 130-row batches among the intervening queries and in the continuation. Half of the threaded query phases run with the GIL handed over every microsecond; queries arrive in the history's habitual container; refits inside the continuation may change the width. Arm changes under no_nhood_prob_of_arm (K6); the public policy objects are compared at the end of every continuation. Round 8: a third of the continuations start with a full refit whose data omits an arm, queried straight away.
 """
 from mon import env  # noqa: F401
 import copy
